@@ -51,6 +51,7 @@ theorem commitWAL_lost_authority (s s' : Eng) (hw : s.writeable = false) (h : co
     obtain ⟨r1, _, h⟩ := M_bind_ok h
     obtain ⟨nc, _, h⟩ := M_bind_ok h
     obtain ⟨r2, _, h⟩ := M_bind_ok h
+    obtain ⟨_, _, h⟩ := M_bind_ok h
     obtain ⟨_, he, _⟩ := M_bind_ok h
     exfalso
     simp [ensure, Eng.writeable] at he hw
@@ -76,6 +77,7 @@ theorem commitWAL_shape (s s' : Eng) (h : commitWALBody s = .ok s') :
     obtain ⟨r1, _, h⟩ := M_bind_ok h
     obtain ⟨nc, _, h⟩ := M_bind_ok h
     obtain ⟨r2, _, h⟩ := M_bind_ok h
+    obtain ⟨_, _, h⟩ := M_bind_ok h
     obtain ⟨_, _, h⟩ := M_bind_ok h
     simp only [pure, Except.pure] at h
     injection h with h
@@ -114,6 +116,7 @@ theorem commitJournalValid_shape (s s' : Eng) (mode : Nat) (h : commitJournalVal
   obtain ⟨r1, hloop, h⟩ := M_bind_ok h
   obtain ⟨ck, _, h⟩ := M_bind_ok h
   obtain ⟨r2, _, h⟩ := M_bind_ok h
+  obtain ⟨_, _, h⟩ := M_bind_ok h
   obtain ⟨s2, hinv, h⟩ := M_bind_ok h
   simp only [pure, Except.pure] at h
   injection h with h
